@@ -21,7 +21,9 @@
    distinct keys; project A consists of modules containing functions, subroutines, generic interfaces
    (with `module procedure` lists only), abstract interfaces, derived types (components, bound
    procedures) and variables, plus local variables / internal procedures / local types of procedures;
-   no USE association between A's modules (no re-exports); project-wide `display` only (no per-entity
+   re-exports between A's modules through `use m, only: [local =>] name` in a module that makes the
+   name accessible (alias nodes; whole-module re-exports without ONLY are not generated); project-wide
+   `display` only (no per-entity
    metadata), `hide_undoc` off.  The pass-through attributes vartype / deferred / generic / attribs are
    not carried on the export side (the harness strips them before comparing). *)
 From Ford Require Import Base.Str Base.Path Out.Names.
@@ -59,11 +61,14 @@ Definition perm_eqb (a b : perm) : bool :=
 Definition perm_str (p : perm) : str :=
   match p with Public => s "public" | Private => s "private" | Protected => s "protected" end.
 
-Inductive kind := KModule | KFunction | KSubroutine | KGeneric | KAbsInt | KType | KVar | KBound.
+(* KAlias: a name under which a module makes a use-associated entity of another module accessible
+   (`use v2_mod, only: new_grid => make_grid` in a module whose default accessibility is public):
+   Ent <id of the defining module> KAlias <local name> <accessibility of the name> [<the entity>] *)
+Inductive kind := KModule | KFunction | KSubroutine | KGeneric | KAbsInt | KType | KVar | KBound | KAlias.
 Definition kind_eqb (a b : kind) : bool :=
   match a, b with
   | KModule, KModule | KFunction, KFunction | KSubroutine, KSubroutine | KGeneric, KGeneric
-  | KAbsInt, KAbsInt | KType, KType | KVar, KVar | KBound, KBound => true
+  | KAbsInt, KAbsInt | KType, KType | KVar, KVar | KBound, KBound | KAlias, KAlias => true
   | _, _ => false
   end.
 
@@ -81,6 +86,7 @@ Definition obj_str (k : kind) : str :=
   match k with
   | KModule => s "module" | KFunction | KSubroutine => s "proc" | KGeneric | KAbsInt => s "interface"
   | KType => s "type" | KVar => s "variable" | KBound => s "boundprocedure"
+  | KAlias => s "variable"            (* only for an alias node without a target, which never occurs *)
   end.
 (* self.proctype where the class has one *)
 Definition proctype_str (k : kind) : option str :=
@@ -146,7 +152,7 @@ Definition slot_of (k : kind) : str :=
   match k with
   | KFunction => s "functions" | KSubroutine => s "subroutines" | KGeneric => s "interfaces"
   | KAbsInt => s "absinterfaces" | KType => s "types" | KVar => s "variables"
-  | KBound => s "boundprocs" | KModule => s "modules"
+  | KBound => s "boundprocs" | KModule => s "modules" | KAlias => s "aliases"
   end.
 (* which pub_* dict of a module an accessible kid sits in *)
 Definition pub_class (k : kind) : option str :=
@@ -164,7 +170,7 @@ Definition list_slots (k : kind) : list str :=
   | KGeneric => [s "functions"; s "subroutines"; s "variables"]
   | KAbsInt => [s "variables"]
   | KType => [s "variables"; s "boundprocs"]
-  | KVar | KBound => []
+  | KVar | KBound | KAlias => []
   end.
 Definition dict_slots (k : kind) : list str :=
   match k with
@@ -173,6 +179,17 @@ Definition dict_slots (k : kind) : list str :=
   end.
 
 Definition PUB_KINDS : list kind := [KFunction; KSubroutine; KGeneric; KAbsInt; KType; KVar].
+
+(* the entity an alias node stands for *)
+Definition alias_target (c : ent) : option ent :=
+  match c with Ent _ KAlias _ _ (t :: _) => Some t | _ => None end.
+(* an alias that belongs into table [slot] of the module: the name is accessible, the entity is of the
+   table's class and its defining module documents it (is_documented) *)
+Definition alias_sel (cfg : acfg) (slot : str) (c : ent) : bool :=
+  match alias_target c with
+  | Some t => opt_eqb str_eqb (pub_class (e_kind t)) (Some slot) && accessible c && shown (c_display cfg) t
+  | None => false
+  end.
 
 (* the dictionary obj2dict builds for an object of class [k]: name, external_url, obj, proctype,
    then the attributes of ATTRIBUTES the class has ([dv]: entries of a dict attribute, [lv]: items of
@@ -212,9 +229,27 @@ Fixpoint export_ent (idf : nat -> str) (cfg : acfg) (pk : option kind) (purl : o
          end) kids in
     (* all_procs: routines (functions, subroutines) first, then the interfaces; the other dicts
        hold one class each, in source order *)
+    (* the names under which use-associated entities of other modules are accessible come after the
+       module's own (pub_*.update(...) in correlate), in the order of [kids] *)
+    let alias_of (slot : str) : list (str * json) :=
+      (fix go (l : list ent) : list (str * json) :=
+         match l with
+         | [] => []
+         | c :: r =>
+           if alias_sel cfg slot c
+           then (lower (e_name c), export_ent idf cfg (Some k) url kept c) :: go r
+           else go r
+         end) kids in
     let dct (slot : str) : list (str * json) :=
-      flat_map (fun k' => if opt_eqb str_eqb (pub_class k') (Some slot) then dct_of k' else []) PUB_KINDS in
-    JDict (node_entries k name url p dct lst)
+      flat_map (fun k' => if opt_eqb str_eqb (pub_class k') (Some slot) then dct_of k' else []) PUB_KINDS
+      ++ alias_of slot in
+    let generic := JDict (node_entries k name url p dct lst) in
+    match k, kids with
+    | KAlias, t :: _ =>
+      (* the entity itself, as its defining module (whose id the alias node carries) exports it *)
+      export_ent idf cfg (Some KModule) (own_url None None KModule (idf id)) true t
+    | _, _ => generic
+    end
   end.
 
 (* project A: its modules, options, and the NameSelector requests made before the dump
@@ -225,9 +260,14 @@ Record aproject := { a_modules : list ent; a_cfg : acfg; a_pre : list req }.
 Fixpoint tree_reqs (pk : option kind) (e : ent) {struct e} : list req :=
   match e with
   | Ent id k name p kids =>
-    {| r_id := id; r_dir := match dir_of pk k with Some d => d | None => s "None" end; r_name := name |}
-    :: (fix go (l : list ent) : list req :=
-          match l with [] => [] | c :: r => tree_reqs (Some k) c ++ go r end) kids
+    let generic :=
+      {| r_id := id; r_dir := match dir_of pk k with Some d => d | None => s "None" end; r_name := name |}
+      :: (fix go (l : list ent) : list req :=
+            match l with [] => [] | c :: r => tree_reqs (Some k) c ++ go r end) kids in
+    match k, kids with
+    | KAlias, t :: _ => tree_reqs (Some KModule) t      (* an alias is not an object of its own *)
+    | _, _ => generic
+    end
   end.
 Definition all_reqs (A : aproject) : list req :=
   a_pre A ++ flat_map (tree_reqs None) (a_modules A).
@@ -757,16 +797,33 @@ Definition project_find (B : blocal) (tops : list xval) (n : str) (entity : opti
     | Some _, Some (HLocalChild c i) => Ok (Some (HLocalChild c i))
     end).
 
-(* module.get_used_entities(...) on an imported module: the object a USE statement of B imports
-   under (lower-cased) name [n] from dict [which] (pub_procs / pub_absints / pub_types / pub_vars);
-   a later key that lower-cases to the same name overrides an earlier one *)
+(* module.get_used_entities(", only: n") on an imported module: the object a USE statement of B imports
+   under name [n] from table [which] (pub_procs / pub_absints / pub_types / pub_vars).  The name is
+   lower-cased and looked up as a key (`name in collection`, `collection[name]`): the key under which
+   the module makes the entity accessible, not the entity's own name.  All four tables are consulted,
+   whichever one the name is then taken from. *)
 Definition PUB_DICTS : list str := [s "pub_procs"; s "pub_absints"; s "pub_types"; s "pub_vars"].
+(* `name in v` followed by `v[name]` for an attribute value v *)
+Definition used_in (v : xval) (n : str) : res (option xval) :=
+  match v with
+  | XD l => Ok (assoc_get n l)
+  | XL l => if existsb (fun x => match x with XS y => str_eqb y n | _ => false end) l
+            then Err TypeError else Ok None          (* list indices must be integers *)
+  | XV (JStr y) => if has_substr n y then Err TypeError else Ok None
+  | _ => Err TypeError                               (* not a container *)
+  end.
+Fixpoint used_all (attrs : list (str * xval)) (n : str) (ws : list str) : res unit :=
+  match ws with
+  | [] => Ok tt
+  | w :: r =>
+    match assoc_get w attrs with
+    | Some v => bind (used_in v n) (fun _ => used_all attrs n r)
+    | None => Err AttributeError
+    end
+  end.
 Definition used_lookup (m : xval) (which : str) (n : str) : res (option xval) :=
-  (* all four dicts are walked (.items()) whichever one the name is then taken from *)
-  if forallb (fun w => match assoc_get w (x_attrs m) with Some (XD _) => true | _ => false end) PUB_DICTS
-  then match assoc_get which (x_attrs m) with
-       | Some (XD l) =>
-         Ok (fold_left (fun acc kv => if str_eqb (lower (fst kv)) (lower n) then Some (snd kv) else acc) l None)
-       | _ => Err AttributeError
-       end
-  else Err AttributeError.                          (* .items() on a non-dict *)
+  bind (used_all (x_attrs m) (lower n) PUB_DICTS) (fun _ =>
+    match assoc_get which (x_attrs m) with
+    | Some v => used_in v (lower n)
+    | None => Err AttributeError
+    end).
